@@ -457,7 +457,7 @@ func main() {
 			MaxEvents: ctx.Pick(6, 7), MaxTracks: 1},
 		// a single track under a format-2 header is a single-track file as well
 		{Name: "conv-format-2-source", Cfgs: []sp.Cfg{{Ctor: 2, TF: smf.MetricTicks(480)}}, AlName: "tiny", Deltas: []uint32{0, 1}, CloseDeltas: []uint32{0},
-			MaxEvents: 4, MaxTracks: 1},
+			MaxEvents: ctx.Pick(3, 5), MaxTracks: 1},
 	}
 	type job struct {
 		p   sp.Plan
